@@ -145,7 +145,8 @@ func (p *c12Proto) GetCloseMsg() []byte                 { return []byte{0, 0, 0,
 func (p *c12Proto) DoClose(ctx context.Context)         {}
 
 func c12Shutdown(nreq int, pool int) {
-	dur := time.Duration(vapi.Choice("dur", 3)) * 300 * time.Millisecond // handler duration 0 / 300 / 600 ms
+	// handler duration 0 / 300 / 600 ms, or 3 s (longer than the 2 s idle window of the shutdown poller)
+	dur := []time.Duration{0, 300 * time.Millisecond, 600 * time.Millisecond, 3 * time.Second}[vapi.Choice("dur", 4)]
 	proto := &c12Proto{dur: dur}
 	cfg := &TarsServerConf{Proto: "tcp", Address: "10.0.0.7:7777", AcceptTimeout: 200 * time.Millisecond, MaxInvoke: int32(pool), QueueCap: 4}
 	ts := NewTarsServer(proto, cfg)
